@@ -167,7 +167,7 @@ func eventString(e gostatsd.Event) string {
 }
 
 func (c05) Run(e *Env) {
-	e.ProbeDecl("normalised-name", "bad-line", "event-line", "empty-line", "host-tag-under-ignore-host", "two-host-tags", "same-gauge-twice", "scribbled", "overlap-delivery-while-parser-parked", "no-trailing-newline", "multi-parser", "burst-read-as-one-batch", "datagram-near-64k")
+	e.ProbeDecl("normalised-name", "bad-line", "event-line", "empty-line", "host-tag-under-ignore-host", "two-host-tags", "same-gauge-twice", "scribbled", "overlap-delivery-while-parser-parked", "no-trailing-newline", "multi-parser", "burst-read-as-one-batch", "datagram-near-64k", "ipv6-sender")
 	nParsers := e.Range(1, 4)
 	nReaders := e.Range(1, 2)
 	ignoreHost := e.Bool()
@@ -224,6 +224,10 @@ func (c05) Run(e *Env) {
 		}
 		nextID++
 		d := &c05Dgram{id: nextID, ip: fmt.Sprintf("10.%d.%d.%d", 2+nextID/60000, (nextID/250)%250, 1+nextID%250)}
+		if !decoy && e.Chance(1, 5) {
+			d.ip = fmt.Sprintf("2001:db8::%x", 0x10+nextID) // a sender reaching the socket over IPv6
+			e.Probe("ipv6-sender")
+		}
 		var lines []string
 		if decoy {
 			lines = []string{"decoy.metric:1|c|#decoytag1,decoytag2,decoytag3,host:decoyhost", "decoy.set:decoymember|s|#zz", "_e{5,5}:decoy|decoy|#decoyevtag"}
